@@ -20,7 +20,7 @@ LEVEL_TEXT = ("Lean theorems about the transcription of pack/tokenparser/expand_
               "n copies of a format pack to n copies of the bits, success iff the number of values is the arity (too few / too many -> ValueError), a fixed-length token "
               "always yields exactly its length (wrong size -> ValueError), length = sum of token lengths, an embedded =value equals the value passed separately, "
               "unpack(pack) returns the values for every well-formed token list incl. one length-less token (two-pass stretchy arithmetic), and expand_brackets on "
-              "every rendered bracket tree yields the flattened tree (n*(f) = f written n times for n >= 1; n = 0 is a known finding) and ValueError on unbalanced input. "
+              "every rendered bracket tree yields the comma-joined flattening whose non-empty tokens are the tree's flattening (n*(f) = f written n times for every n >= 0) and ValueError on unbalanced input. "
               "Correspondence: grammar-generated formats (depth <= 3, factors 0..4, whitespace, all length spellings, keywords, struct groups, pads, one length-less token), "
               "malformed stream, all two-way splits, n*(f) vs f repeated, token strings with embedded values.")
 LEVEL_NOTE = ("Trusted: Lean kernel (+propext, Classical.choice, Quot.sound); the regexes of utils.py are modelled by hand-written string functions (ASCII classes) and tied "
@@ -126,6 +126,11 @@ def plain(thunk, fmt) -> str:
         n = err_name(e)
         return "err" if n in DOCUMENTED else "err " + n
     return "ok " + fmt(v)
+
+
+def snapshot(vals, kw) -> str:
+    """the caller's own values as seen after a call (mutable or not, pack must leave them alone)"""
+    return vals_wire(list(vals)) + "#" + kw_wire(kw)
 
 
 def pack_obs(fmts, vals, kw) -> str:
@@ -265,9 +270,21 @@ def execute(line: str):
         return "ok " + lst([esc(p) for p in pre]) + (" 1 " if st else " 0 ") + lst([tokwire(t) for t in toks]), extra
     if op == "pack":
         fmt, kw, vals, u = unesc(f[2]), kw_unwire(f[3]), vals_unwire(f[4]), f[5]
+        before = snapshot(vals, kw)
         out = pack_obs([fmt], vals, kw)
+        extra["values_after"] = snapshot(vals, kw) == before
         if out.startswith("ok"):
+            first = out
+            # grow the first result: nothing the caller or the caches own may be reachable from it
+            try:
+                r0 = bitstring.pack(fmt, *vals, **kw)
+                r0.append("0b1"); r0.prepend("0b1"); r0.invert()
+            except Exception:                               # noqa: BLE001
+                pass
+            extra["values_after"] = extra["values_after"] and snapshot(vals, kw) == before
             s = bitstring.pack(fmt, *vals, **kw)
+            extra["again"] = "ok " + wire(s)               # identical call, caches warm: must be the same bits
+            extra["values_after"] = extra["values_after"] and snapshot(vals, kw) == before
             extra["len"] = len(s)
             extra["cls"] = type(s).__name__
             if u == "1":
@@ -283,20 +300,33 @@ def execute(line: str):
         f1, f2, kw, v1, v2 = unesc(f[2]), unesc(f[3]), kw_unwire(f[4]), vals_unwire(f[5]), vals_unwire(f[6])
         out = pack_obs([f1 + "," + f2], v1 + v2, kw)
         clear_caches()
+        before = snapshot(v1 + v2, kw)
         extra["p1"] = pack_obs([f1], v1, kw)
         extra["p2"] = pack_obs([f2], v2, kw)
         extra["as_list"] = pack_obs([f1, f2], v1 + v2, kw)
+        extra["again"] = pack_obs([f1 + "," + f2], v1 + v2, kw)
+        extra["values_after"] = snapshot(v1 + v2, kw) == before
         return out, extra
     if op == "rep":
         n, fmt, kw, vals = int(f[2]), unesc(f[3]), kw_unwire(f[4]), vals_unwire(f[5])
         out = pack_obs(["%d*(%s)" % (n, fmt)], vals * n, kw)
         clear_caches()
+        before = snapshot(vals, kw)
         extra["written"] = pack_obs([",".join([fmt] * n)], vals * n, kw)
         extra["once"] = pack_obs([fmt], vals, kw)
+        extra["again"] = pack_obs(["%d*(%s)" % (n, fmt)], vals * n, kw)
+        extra["values_after"] = snapshot(vals, kw) == before
         return out, extra
     if op == "str":
         s, plainfmt, vals = unesc(f[2]), unesc(f[3]), vals_unwire(f[4])
         out = plain(lambda: Bits(s), wire)
+        # mutable objects built from the same string must not reach the store the next Bits(s) is served from
+        def grown():
+            for cls in (BitArray, BitStream):
+                m = cls(s); m.append("0b1"); m.invert()
+            m = bitstring.pack(s); m.append("0b1"); m.invert()
+            return Bits(s)
+        extra["again"] = plain(grown, wire)
         clear_caches()
         extra["pack_str"] = plain(lambda: bitstring.pack(s), wire)
         extra["bitarray"] = plain(lambda: BitArray(s), wire)
@@ -361,6 +391,8 @@ def oracle(line: str, out: str, extra: dict):
     if spec == "?":
         return None if not out.startswith("err Internal") else f"undocumented exception {out}"
     if spec.startswith("!"):
+        if extra.get("values_after") is False:
+            return "a failing pack changed a value passed by the caller"
         r = _expect_error(spec, out.split(" U:")[0], f"{op} {unesc(f[2])!r}")
         if r != "?":
             return r
@@ -376,6 +408,10 @@ def oracle(line: str, out: str, extra: dict):
             return f"len(pack(...)) = {extra.get('len')}, sum of token lengths = {len(bits)}"
         if "as_list" in extra and extra["as_list"] != exp:
             return f"pack([f1, f2]) gives {extra['as_list']}, pack('f1,f2') gives {head}"
+        if extra.get("again") != exp:
+            return f"the same pack call repeated gives {extra.get('again')}, first call gave {head}"
+        if not extra.get("values_after"):
+            return "pack changed a value passed by the caller (or a later identical call sees a grown value)"
         if f[5] == "1" and spec_wellformed(atoms):
             want = "ok " + out_vals(spec_values(atoms))
             if utail != want:
@@ -393,6 +429,10 @@ def oracle(line: str, out: str, extra: dict):
             return f"pack('f1,f2') = {out} is not pack(f1) + pack(f2) = {p1[3:]} + {p2[3:]}"
         if extra["as_list"] != out:
             return f"pack([f1, f2]) = {extra['as_list']} differs from pack('f1,f2') = {out}"
+        if extra["again"] != out:
+            return f"the same pack call repeated gives {extra['again']}, first call gave {out}"
+        if not extra["values_after"]:
+            return "pack changed a value passed by the caller"
         return None
     if op == "rep":
         n = int(f[2])
@@ -402,11 +442,15 @@ def oracle(line: str, out: str, extra: dict):
             return f"the format written {n} times packs to {extra['written']}, expected {exp}"
         if not extra["once"].startswith("ok ") or "ok " + wire(unwire(extra["once"][3:]) * n) != exp:
             return f"pack(f) * {n} = {extra['once']} * {n} differs from {exp}"
+        if extra["again"] != exp:
+            return f"the same pack call repeated gives {extra['again']}, first call gave {out}"
+        if not extra["values_after"]:
+            return "pack changed a value passed by the caller"
         return None
     if op == "str":
         if out != exp:
             return f"Bits({unesc(f[2])!r}): expected {exp}, got {out}"
-        for k in ("pack_str", "bitarray", "separate"):
+        for k in ("again", "pack_str", "bitarray", "separate"):
             if k in extra and extra[k] != exp:
                 return f"route {k} gives {extra[k]}, Bits(token string) gives {out}"
         return None
@@ -423,19 +467,6 @@ def oracle(line: str, out: str, extra: dict):
             return "unpack changed the bitstring"
         return None
     return "unknown op"
-
-
-_ZERO_GROUP = re.compile(r"(^|[^0-9])0+\*\(")
-
-
-def _in_zero_region(line):
-    f = line.split(SEP)
-    if f[1] == "rep" and int(f[2]) == 0:
-        return True
-    return any(_ZERO_GROUP.search("".join(unesc(x).split())) for x in f[2:4])
-
-
-REGIONS = {"zero_bracket_factor": _in_zero_region}
 
 
 def nontrivial(line):
@@ -692,8 +723,8 @@ def gen_tree(rng, ctx, mode, depth, allow_lengthless, zero_ok=True):
                 fac = rng.choice([0, 1, 1, 2, 2, 2, 2, 3, 3, 4, 4] if zero_ok else [1, 2, 2, 3, 4])
             ftxt = None if fac is None else (str(fac) if rng.random() < 0.9 else "0" + str(fac))
             if fac == 0:
-                # the code treats 0*(…) like 1*(…) (known finding): keep positional values out of such groups so that a
-                # shifted value can never turn into a gigantic `Bits(n)` / `bytes(n)` allocation
+                # keep positional values out of 0*(…) groups: if an implementation under test consumed values for them (the
+                # fixed zero-bracket-factor defect), a shifted value could turn into a gigantic `Bits(n)` / `bytes(n)` allocation
                 ch = []
                 for _ in range(rng.randint(1, 3)):
                     for _ in range(30):
@@ -759,7 +790,7 @@ def expand_ref(nodes):
         else:
             _, fac, _, ch = nd
             inner = expand_ref(ch)
-            parts += [inner] * (1 if fac is None else fac)
+            parts.append(inner if fac is None else ",".join([inner] * fac))
     return ",".join(parts)
 
 
@@ -934,6 +965,29 @@ def gen(rng, tier):
             for cnt in (0, 1, 2, 3):
                 vs = [rng.randint(lo, hi) for _ in range(cnt)]
                 yield SEP.join(["C05", "pack", esc(f"{e}{cnt}{code}B"), "-", vals_wire(vs + [7]), "1", spec_wire([(kind, size, v) for v in vs] + [("uint", 8, 7)])])
+    # a factor directly on a struct-style token repeats the whole group: 3*<hb = h,b,h,b,h,b
+    codes = "bBhHlLiIqQ"
+    for e in "<>@=":
+        for c1 in codes:
+            for c2 in codes:
+                if c1 == c2 or (not big and rng.random() < 0.6):
+                    continue
+                for n in (2, 3):
+                    def ks(code):
+                        size = {"b": 8, "h": 16, "l": 32, "i": 32, "q": 64}[code.lower()]
+                        kind = ("int" if code.islower() else "uint") + ("" if size == 8 else ("be" if e == ">" else "le"))
+                        lo, hi = ((-(1 << (size - 1)), (1 << (size - 1)) - 1) if code.islower() else (0, (1 << size) - 1))
+                        return kind, size, rand_int_in(rng, lo, hi)
+                    cnt = rng.choice(["", "", "2"])
+                    grp = [c1] * (2 if cnt else 1) + [c2]
+                    atoms = [ks(c) for _ in range(n) for c in grp]
+                    fmt = "%d*%s%s%s%s" % (n, e, cnt, c1, c2)
+                    yield SEP.join(["C05", "pack", esc(fmt), "-", vals_wire([a[2] for a in atoms]), "1", spec_wire(atoms)])
+                    if rng.random() < 0.3:
+                        pre = [("int" if c.islower() else "uint") + ("" if c.lower() == "b" else {"<": "le", ">": "be", "@": "ne", "=": "ne"}[e])
+                               + str({"b": 8, "h": 16, "l": 32, "i": 32, "q": 64}[c.lower()]) for _ in range(n) for c in grp]
+                        toks = [p.rstrip("0123456789") + "|" + p[len(p.rstrip("0123456789")):] + "|~" for p in pre]
+                        yield SEP.join(["C05", "tok", esc(fmt), "-", "ok " + ";".join(pre) + " 0 " + ";".join(toks)])
     # n*(f) vs f written n times, small formats, every n in 0..4
     for n in range(0, 5):
         for _ in range(60 * N):
@@ -955,14 +1009,11 @@ def gen(rng, tier):
         c = rng.random()
         if c < 0.35:
             atoms = flatten(nodes)
-            if not has_zero_group(nodes):
-                yield SEP.join(["C05", "tok", esc(fmt), ";".join(sorted(ctx.kw)) if ctx.kw else "-", tok_expect(atoms, ctx.kw)])
-            else:
-                yield SEP.join(["C05", "tok", esc(fmt), ";".join(sorted(ctx.kw)) if ctx.kw else "-", "?"])
+            yield SEP.join(["C05", "tok", esc(fmt), ";".join(sorted(ctx.kw)) if ctx.kw else "-", tok_expect(atoms, ctx.kw)])
         elif c < 0.5:
             s = render(nodes)
-            yield SEP.join(["C05", "expand", esc(s), ("ok " + esc(expand_ref(nodes)) + ".") if not has_zero_group(nodes) else "?"])
-        elif c < 0.7 and u == "1" and not has_zero_group(nodes):
+            yield SEP.join(["C05", "expand", esc(s), "ok " + esc(expand_ref(nodes)) + "."])
+        elif c < 0.7 and u == "1":
             # unpack with an independently spelled format of the same flat token list
             bits = spec_bits(spec)
             yield SEP.join(["C05", "unpack", esc(fmt), kw_wire(ctx.kw), wire(bits), spec_wire(spec)])
